@@ -291,6 +291,7 @@ def run_rt(spec, acc):
                  [('AppClock', AppClock, 1.0)] + \
                  [('TempoClock', c, tp) for c, tp in tclocks] * 2
         events = []
+        stuck = 0
 
         def make_body(cname, clock, steps, ev):
             def body():
@@ -314,11 +315,14 @@ def run_rt(spec, acc):
                     ev.set()
             return body
 
-        def make_slow(sleeps):
+        def make_slow(sleeps, ev):
             def slow():
-                for s, d in sleeps:
-                    time.sleep(s)                 # holds the main lock
-                    yield d
+                try:
+                    for s, d in sleeps:
+                        time.sleep(s)             # holds the main lock
+                        yield d
+                finally:
+                    ev.set()
             return slow
 
         try:
@@ -338,7 +342,9 @@ def run_rt(spec, acc):
             for _ in range(rng.randint(1, 2)):
                 sleeps = [(rng.uniform(0.0003, 0.003), rng.uniform(0.001, 0.004))
                           for _ in range(rng.randint(15, 50))]
-                Routine(make_slow(sleeps)).play(SystemClock)
+                ev = threading.Event()
+                events.append(ev)
+                Routine(make_slow(sleeps, ev)).play(SystemClock)
             # sends from the main thread while the clocks run
             deadline = time.time() + 15
             n = 0
@@ -380,7 +386,14 @@ def run_rt(spec, acc):
                 except Exception:
                     pass
         if forward[0]:
-            time.sleep(0.08)        # let loop-back datagrams arrive
+            # let loop-back datagrams arrive and their dispatch tasks run
+            for _ in range(40):
+                n0 = len(incoming)
+                time.sleep(0.05)
+                if len(incoming) == n0:
+                    break
+        elif stuck:
+            pass                    # something may still run: not quiet
         else:
             time.sleep(0.02)
             # quiet sends: nothing scheduled, no traffic
